@@ -111,7 +111,7 @@ Proof.
   - unfold ds_rename_axis. destruct (ds_axis_ref s r); [apply rename_id_shared; exact Hs | exact Hs].
   - unfold ds_var_rename_axis. destruct (find_var s k); [|exact Hs].
     destruct (axis_info _ r); [apply rename_id_shared; exact Hs | exact Hs].
-  - unfold ds_set_dims. destruct (negb _); [exact Hs|]. destruct (negb _); [exact Hs|].
+  - unfold ds_set_dims. destruct (negb _); [exact Hs|]. destruct (negb _); [exact Hs|]. destruct (existsb _ ns); [exact Hs|].
     apply (fold_rename_shared (fun st p => rename_id st (fst p) (snd p))); [intros; apply rename_id_shared; assumption | exact Hs].
   - unfold ds_rename_axes.
     apply (fold_rename_shared (fun st p => ds_rename_axis (ByName (fst p)) (snd p) st)); [|exact Hs].
@@ -450,10 +450,62 @@ Proof.
   - unfold ds_keys. simpl. rewrite map_map. simpl. exact Hkeys.
 Qed.
 
+(* ds.dims = names: all names validated first (length, distinct, non-empty), then every axis renamed by position.
+   Intermediate states may carry a duplicate name (a swap), the state after the assignment does not. *)
+Lemma NoDup_names_ids h l : NoDup (names h l) -> NoDup l.
+Proof.
+  unfold names. induction l as [|x t IH]; intros H; [constructor|]. simpl in H. inversion H as [|? ? Hx Ht]; subst.
+  constructor; [intros Hin; apply Hx; apply in_map_iff; exists x; auto | apply IH; exact Ht].
+Qed.
+
+Lemma set_dims_fold ids : forall (ns : list string) s,
+  List.length ns = List.length ids -> NoDup ids -> ~ In EmptyString ns ->
+  let r := fold_left (fun (acc : dset * res unit) p => match snd acc with Ok _ => rename_id (fst acc) (fst p) (snd p) | Err e => acc end)
+                     (combine ids ns) (s, Ok tt) in
+  snd r = Ok tt /\ dsax (fst r) = dsax s /\ dvars (fst r) = dvars s /\ nextid (fst r) = nextid s /\ dsattrs (fst r) = dsattrs s /\
+  names (heap (fst r)) ids = ns /\ (forall j, ~ In j ids -> hget (heap (fst r)) j = hget (heap s) j).
+Proof.
+  induction ids as [|id t IH]; intros ns s Hl Hnd He.
+  - destruct ns; [|discriminate]. simpl. repeat split; reflexivity.
+  - destruct ns as [|n ns']; [discriminate|]. inversion Hnd as [|? ? Hid Hnd']; subst.
+    cbn [combine fold_left snd fst].
+    assert (Hn : String.eqb n "" = false).
+    { destruct (String.eqb_spec n ""); [exfalso; apply He; left; assumption | reflexivity]. }
+    set (s1 := with_heap s (hset (heap s) id (with_name (hget (heap s) id) n))).
+    assert (E1 : rename_id s id n = (s1, Ok tt)) by (unfold rename_id; rewrite Hn; reflexivity).
+    rewrite E1.
+    destruct (IH ns' s1 ltac:(simpl in Hl; lia) Hnd' ltac:(intros H; apply He; right; exact H)) as [R1 [R2 [R3 [R4 [R5 [R6 R7]]]]]].
+    cbv zeta in *. split; [exact R1|]. split; [exact R2|]. split; [exact R3|]. split; [exact R4|]. split; [exact R5|]. split.
+    + unfold names in *. cbn [map]. f_equal; [|exact R6].
+      rewrite (R7 id Hid). unfold s1; simpl. rewrite hget_hset_eq. reflexivity.
+    + intros j Hj. rewrite R7 by (intros H; apply Hj; right; exact H). unfold s1; simpl.
+      apply hget_hset_neq. intros ->. apply Hj. left. reflexivity.
+Qed.
+
+Theorem set_dims_inv ns s : Inv4 s -> Inv4 (fst (ds_set_dims ns s)).
+Proof.
+  intros Hi. pose proof Hi as [[Hsh [Hus [Hnd Hlt]]] Hkeys]. unfold ds_set_dims.
+  destruct (negb (_ =? _)) eqn:El; [exact Hi|]. destruct (negb (distinct_str ns)) eqn:Ed; [exact Hi|].
+  destruct (existsb (String.eqb "") ns) eqn:Ee; [exact Hi|].
+  apply negb_false_iff in El, Ed. apply Nat.eqb_eq in El.
+  assert (He : ~ In EmptyString ns).
+  { intros Hin. assert (existsb (String.eqb "") ns = true); [|congruence]. apply existsb_exists. exists EmptyString. split; [exact Hin | reflexivity]. }
+  destruct (set_dims_fold (dsax s) ns s El (NoDup_names_ids _ _ Hnd) He) as [_ [R2 [R3 [R4 [_ [R6 _]]]]]]. cbv zeta in *.
+  set (r := fold_left _ _ _) in *.
+  split; [split; [|split]|].
+  - intros v Hv id Hid. rewrite R3 in Hv. rewrite R2. exact (Hsh v Hv id Hid).
+  - intros id Hid. rewrite R2 in Hid. rewrite R3. exact (Hus id Hid).
+  - split; [rewrite R2, R6|rewrite R2, R4; exact Hlt].
+    clear -Ed. induction ns as [|x t IH]; [constructor|]. simpl in Ed. apply andb_true_iff in Ed. destruct Ed as [E1 E2].
+    constructor; [|apply IH; exact E2]. intros Hin. apply negb_true_iff in E1.
+    assert (mem_str x t = true); [|congruence]. unfold mem_str. apply existsb_exists. exists x. split; [exact Hin | apply String.eqb_refl].
+  - unfold ds_keys. rewrite R3. exact Hkeys.
+Qed.
+
 (* what a history must respect for the bookkeeping invariant: new names are fresh *)
 Definition op_ok (s : dset) (o : dsop) : Prop :=
   match o with
-  | DSet _ _ | DDel _ | DSetLabel _ _ _ _ => True
+  | DSet _ _ | DDel _ | DSetLabel _ _ _ _ | DSetDims _ => True
   | DRenameAxis r n => forall id, ds_axis_ref s r = Ok id -> ~ In n (ds_dims s) \/ n = aname (hget (heap s) id)
   | DReplaceAxis r nx => (forall id, ds_axis_ref s r = Ok id -> aname nx = aname (hget (heap s) id) \/ ~ In (aname nx) (ds_dims s))
                          /\ (forall id, ds_axis_ref s r = Ok id -> In id (dsax s))
@@ -468,6 +520,7 @@ Proof.
   - apply setitem_inv; exact Hi.
   - apply delitem_inv; exact Hi.
   - unfold ds_rename_axis. destruct (ds_axis_ref s r) as [id|] eqn:E; [|exact Hi]. apply rename_id_inv; [exact Hi | apply Hok; reflexivity].
+  - apply set_dims_inv; exact Hi.
   - apply set_label_inv; exact Hi.
   - apply replace_axis_inv; [exact Hi | apply Hok | apply Hok].
 Qed.
